@@ -48,6 +48,10 @@ type store struct {
 	foreign          []*record           // poison records made with ANOTHER keystore's poison keys
 	clientEnvelopes  map[string][][]byte // "<owner>/<form>" -> envelopes
 	clientEnvClasses []string
+	// data-length sweep (lensweep.go)
+	prepEnv   *envrig.Env
+	sweepPool [][]*record // per epoch: one record per (data length, kind) made under the keys current at that epoch
+	sweepEnvs []*sweepEnvelope
 }
 
 func (s *store) keyAge(rec *record) int {
@@ -151,6 +155,11 @@ type kase struct {
 	offset    int
 	judged    bool
 	note      string
+	// data-length sweep (lensweep.go)
+	sweep   bool
+	length  int    // requested data length of the poison record / payload length of the client envelope (-1 = default)
+	owner   string // negatives: reader name of the client the envelope belongs to
+	wantOut []byte // negatives: what the entry point delivers when it decrypts the envelope for its owner
 }
 
 func u64(v uint64) []byte { b := make([]byte, 8); binary.LittleEndian.PutUint64(b, v); return b }
@@ -356,6 +365,7 @@ func (st *store) prepareClients(rng *gen.Rand) {
 	must(ksrig.GenClient(st.ks, otherID), "client keys")
 	e, err := envrig.New(st.name+"-prep", st.ks, nil, "")
 	must(err, "env")
+	st.prepEnv = e
 	st.clientEnvelopes = map[string][][]byte{}
 	add := func(k string, b []byte, err error) {
 		must(err, "client envelope "+k)
@@ -399,7 +409,7 @@ func keyClass(age int) string {
 
 // Run is the C15 monitor (library / service layer), followed by the wire layer if plugged in.
 func Run(r *ev.Run) {
-	r.Rule = "cases = (keystore format v1|v2 × poison-key history of 0-3 rotations of the pair and of the symmetric key × record kind AcraStruct|AcraBlock made under the current or an older key × placement (alone, offsets 0..64 in random bytes, text, partial tags, hash look-alike prefix, next to client envelopes, two records, after look-alike container headers) × entry point (column pipeline under 12 column-setting/masking variants, 8 translator decrypt call forms) × reader) for positives, and (random bytes, look-alike headers, client envelopes raw/container/searchable framed or not, truncated and bit-flipped poison records, poison records of another keystore) × entry point for negatives; seeded sample, fixed counts per (keystore, epoch). A positive case is non-trivial when the recording callback ran inside the operation window; distinct = (keystore, entry point, kind, key age, placement) for positives and (keystore, entry-point group, input class) for silent negatives"
+	r.Rule = "cases = (keystore format v1|v2 × poison-key history of 0-3 rotations of the pair and of the symmetric key × record kind AcraStruct|AcraBlock made under the current or an older key × placement (alone, offsets 0..64 in random bytes, text, partial tags, hash look-alike prefix, next to client envelopes, two records, after look-alike container headers) × entry point (column pipeline under 12 column-setting/masking variants, 8 translator decrypt call forms) × reader) for positives, and (random bytes, look-alike headers, client envelopes raw/container/searchable framed or not, truncated and bit-flipped poison records, poison records of another keystore) × entry point for negatives; seeded sample, fixed counts per (keystore, epoch). Data-length sweep (enumerated, not sampled; counters lensweep:*): requested data length {default,1,100,300,311,1000,5000,20000} × kind × (alone | embedded among random bytes) × 18 entry points (10 column variants, 8 translator call forms) × records made under the current and under rotated poison keys, per keystore and epoch, and as negatives client envelopes of both kinds with payloads of the same lengths (quick: length 20000 embedded at a rotating quarter of the entry points per epoch). A positive case is non-trivial when the recording callback ran inside the operation window; distinct = (keystore, entry point, kind, key age, placement[, data length in the sweep]) for positives and (keystore, entry-point group, input class) for silent negatives"
 	r.Assumptions = []string{
 		"crypto library replaced by the pure-Go gothemis stand-in (Secure Cell Seal / Secure Message / EC key contract)",
 		"library/service layer: column pipeline assembled like proxyFactory.New (hmac, old-container wrapper, poison recognizer BEFORE the decrypt/masking handler) and TranslatorService; delivery = return of OnColumn / of the translator operation; wire transport is judged by the proxy layer",
@@ -410,6 +420,7 @@ func Run(r *ev.Run) {
 	stores := newStores()
 	for _, st := range stores {
 		st.prepareClients(gen.New(r.Seed, "c15-clients-"+st.name))
+		st.prepareSweepClients(gen.New(r.Seed, "c15-lensweep-clients-"+st.name))
 	}
 	const workers = 8
 	wenvs := make([][]*wenv, workers)
@@ -517,6 +528,8 @@ func Run(r *ev.Run) {
 				k.reader, k.note = rd.id, rd.n
 				batch = append(batch, k)
 			}
+			// data-length sweep: its own random streams, the cases above are unchanged by it
+			batch = append(batch, sweepCases(r, st, si, epoch, cols[:10], trs)...) // cols[:10] = the distinct column variants
 		}
 		// run the batch: each worker owns its environments, so one operation at a time per callback storage
 		ch := make(chan kase, 64)
@@ -556,6 +569,7 @@ func finishGuards(r *ev.Run) {
 	}
 	r.RequireAtLeast("negative_silent", 1500)
 	r.RequireAtLeast("looks_at_delivery_point_while_callback_blocked", 500)
+	sweepGuards(r)
 }
 
 func reportOrphans(r *ev.Run, we *wenv, when string) {
@@ -569,7 +583,7 @@ func runCase(r *ev.Run, we *wenv, k kase) {
 	r.Case()
 	res := observe(we.rec, func() ([]byte, error) { return k.tgt.run(we, k.reader, k.input, k.hash) })
 	detail := func() map[string]interface{} {
-		return map[string]interface{}{"keystore": k.st.name, "epoch": k.epoch, "entry_point": k.tgt.name, "reader": k.note, "class": k.class, "offset": k.offset,
+		return map[string]interface{}{"keystore": k.st.name, "epoch": k.epoch, "entry_point": k.tgt.name, "reader": k.note, "class": k.class, "offset": k.offset, "input_length": len(k.input),
 			"input": ev.FullHex(k.input), "hash_arg": ev.FullHex(k.hash), "callbacks": res.Events, "secondary_runs": res.Secondary, "delivery_seq": res.DeliverySeq,
 			"operation_goroutine": res.OpGid, "err": fmt.Sprint(res.Err), "delivered_digest": digest(res.Out), "panic": res.Panic, "seed": r.Seed}
 	}
@@ -582,7 +596,11 @@ func runCase(r *ev.Run, we *wenv, k kase) {
 	}
 	reportOrphans(r, we, "after "+k.tgt.name)
 	r.Count("callbacks_seen", int64(len(res.Events)))
-	r.Count("looks_at_delivery_point_while_callback_blocked", int64(res.LooksWhileBlocked))
+	pfx := ""
+	if k.sweep {
+		pfx = "lensweep:"
+	}
+	r.Count(pfx+"looks_at_delivery_point_while_callback_blocked", int64(res.LooksWhileBlocked))
 	if res.Panic != "" {
 		// a crash delivers nothing; crashes are C14's (and C11's for masked columns) subject — recorded, not judged here
 		r.Count("operation_panicked", 1)
@@ -595,7 +613,7 @@ func runCase(r *ev.Run, we *wenv, k kase) {
 		return
 	}
 	if !k.positive {
-		r.Count("negative_cases", 1)
+		r.Count(pfx+"negative_cases", 1)
 		if !k.judged {
 			r.Count("negative_not_judged(damage_left_envelope_intact)", 1)
 			return
@@ -604,8 +622,12 @@ func runCase(r *ev.Run, we *wenv, k kase) {
 			r.Violation(fmt.Sprintf("false alarm: callbacks ran for a non-poison input: ep=%s input=%s ks=%s", k.tgt.name, k.class, k.st.name), detail())
 			return
 		}
-		r.Count("negative_silent", 1)
-		r.Count("silent:"+k.tgt.group, 1)
+		r.Count(pfx+"negative_silent", 1)
+		r.Count(pfx+"silent:"+k.tgt.group, 1)
+		if k.sweep {
+			sweepNegativeSilent(r, k, res)
+			return
+		}
 		r.Distinct(fmt.Sprintf("neg|%s|%s|%s", k.st.name, k.tgt.group, k.class))
 		r.SampleN("neg:"+k.tgt.group, 2, map[string]interface{}{"case": "negative", "keystore": k.st.name, "entry_point": k.tgt.name, "class": k.class, "input": ev.Hex(k.input), "callbacks": 0, "delivery_seq": res.DeliverySeq, "delivered_digest": digest(res.Out)})
 		return
@@ -624,9 +646,17 @@ func runCase(r *ev.Run, we *wenv, k kase) {
 		}
 		return
 	}
-	r.Count("positive_cases", 1)
+	r.Count(pfx+"positive_cases", 1)
 	sigTail := fmt.Sprintf("ep=%s kind=%s key=%s placement=%s ks=%s", k.tgt.name, k.kind, keyClass(k.keyAge), k.placement, k.st.name)
+	if k.sweep {
+		sigTail = fmt.Sprintf("ep=%s kind=%s key=%s len=%s placement=%s ks=%s", k.tgt.name, k.kind, keyClass(k.keyAge), lenLabel(k.length), k.placement, k.st.name)
+	}
 	if len(res.Events) == 0 {
+		if k.sweep {
+			// the cause is named by how the input was made: entry point, envelope kind, requested data length, placement, key age
+			r.Violation(fmt.Sprintf("poison-not-detected/%s/%s/len=%s/%s/key=%s", k.tgt.name, k.kind, lenLabel(k.length), k.placement, keyClass(k.keyAge)), detail())
+			return
+		}
 		r.Violation("poison record delivered without the callbacks having run: "+sigTail, detail())
 		return
 	}
@@ -650,6 +680,10 @@ func runCase(r *ev.Run, we *wenv, k kase) {
 	}
 	if res.AsyncHeld > 0 {
 		r.Count("callback_on_other_goroutine_but_operation_waited", int64(res.AsyncHeld))
+	}
+	if k.sweep {
+		sweepPositiveDetected(r, k, res)
+		return
 	}
 	r.Count("positive_detected", 1)
 	r.Count("detected:"+k.tgt.group, 1)
